@@ -55,7 +55,7 @@ R, SN, CL, EO = "recv", "send", "close", "eof"
 EMIT = {
     "quick": [
         ("rx-paused", consts(ops=((R,), (R, CL)), maxops=3, total=3, env=("data", "peof", "reset"), emit=True)),
-        ("rx-unpaused-cancel", consts(ops=((R,), (CL,)), maxops=3, total=4, paused=False,
+        ("rx-unpaused-cancel", consts(ops=((R,), (CL,)), maxops=3, total=4, paused=False, burst=0,
                                       env=("data", "peof", "cancel"), emit=True)),
         ("tx", consts(ops=((SN,), (SN, CL)), maxops=3, total=0, env=("drain", "reset", "cancel"), emit=True)),
         ("duplex", consts(nt=3, ops=((R,), (SN,), (CL, EO)), maxops=3, total=2, sizes=(3,), mbs=(1,),
@@ -85,7 +85,7 @@ CHECK = {
     ],
 }
 LIVE = {
-    "quick": ("live", consts(nt=3, ops=((R,), (SN,), (CL,)), maxops=3, total=2, sizes=(3,), mbs=(1,),
+    "quick": ("live", consts(nt=2, ops=((R, CL), (SN,)), maxops=2, total=2, sizes=(3,), mbs=(1,),
                              env=("data", "peof", "drain", "reset", "cancel"))),
     "thorough": ("live", consts(nt=3, ops=((R,), (SN,), (CL,)), maxops=4, total=3,
                                 env=("data", "peof", "drain", "reset", "cancel"))),
@@ -168,11 +168,11 @@ def _key(tr: dict) -> str:
     return json.dumps([tr["events"], tr["params"]], sort_keys=True)
 
 
-def _validate(reps: list[dict], tag: str, par: int = 6) -> list[dict]:
+def _validate(reps: list[dict], tag: str, par: int = 4) -> list[dict]:
     """T_Sock validation, split over a few TLC processes."""
     if not reps:
         return []
-    n = max(1, min(par, len(reps) // 40))
+    n = max(1, min(par, len(reps) // 100))
     size = (len(reps) + n - 1) // n
     parts = [reps[i:i + size] for i in range(0, len(reps), size)]
     with ThreadPoolExecutor(max_workers=n) as ex:
@@ -195,7 +195,7 @@ def _judge(traces: list[dict], tag: str):
     if again:
         second = [{"id": i, "events": reps[i]["events"],
                    "params": dict(reps[i]["params"], boundA=1 << 29, boundB=1 << 29)} for i in again]
-        for i, v in zip(again, _validate(second, tag + "b")):
+        for i, v in zip(again, _validate(second, tag + "b", par=1)):
             if v["bad"]:
                 verdicts[i] = dict(v, bad=sorted(set(v["bad"])), behind_known=True)
             else:
@@ -210,6 +210,26 @@ def _signature(bad: list[str]) -> str:
     return "+".join(sorted(bad))
 
 
+def _tlc_phase(tier: str, seed: int, quick: bool, nsim: int) -> list:
+    jobs = []
+    with ThreadPoolExecutor(max_workers=12) as ex:
+        for name, c in EMIT[tier]:
+            jobs.append(("emit", ex.submit(_run_emit, name, c, 4 if quick else 6)))
+        for name, c in CHECK[tier]:
+            jobs.append(("check", ex.submit(_run_check, name, c, 4)))
+        jobs.append(("live", ex.submit(_run_live, *LIVE[tier], 4)))
+        if not quick:   # quick: the emitted unpaused / cancel configuration shows the same (x.bad)
+            jobs.append(("f10", ex.submit(_run_f10, *F10)))
+            jobs.append(("f10", ex.submit(_run_f10, *F10C)))
+        for i, (name, c) in enumerate(SIM.items()):
+            if quick and name == "paused":
+                continue
+            jobs.append(("sim", ex.submit(_run_sim, name, c, nsim if name != "flood" else nsim // 2,
+                                          seed * 7 + i + 1)))
+        results = [(kind, f.result()) for kind, f in jobs]
+    return results
+
+
 def main(tier: str, seed: int) -> int:
     rep = core.Report(PROP, tier, seed)
     rng = random.Random(seed)
@@ -218,19 +238,17 @@ def main(tier: str, seed: int) -> int:
 
     # ---- 1. TLC: exhaustive checks, emission, liveness, simulation -- all started together
     nsim = 100 if quick else 1200
-    jobs = []
-    with ThreadPoolExecutor(max_workers=12) as ex:
-        for name, c in EMIT[tier]:
-            jobs.append(("emit", ex.submit(_run_emit, name, c, 4 if quick else 6)))
-        for name, c in CHECK[tier]:
-            jobs.append(("check", ex.submit(_run_check, name, c, 4)))
-        jobs.append(("live", ex.submit(_run_live, *LIVE[tier], 4)))
-        jobs.append(("f10", ex.submit(_run_f10, *F10)))
-        jobs.append(("f10", ex.submit(_run_f10, *F10C)))
-        for i, (name, c) in enumerate(SIM.items()):
-            jobs.append(("sim", ex.submit(_run_sim, name, c, nsim if name != "flood" else nsim // 2,
-                                          seed * 7 + i + 1)))
-        results = [(kind, f.result()) for kind, f in jobs]
+    # development aid, off by default: TLC's output does not depend on the library, so it can be reused
+    # across runs against patched trees (VERIF_C18_TLC_CACHE=<file>); never used by ./check itself
+    import os
+    import pickle
+    cache = os.environ.get("VERIF_C18_TLC_CACHE")
+    if cache and os.path.exists(cache):
+        results = pickle.load(open(cache, "rb"))
+    else:
+        results = _tlc_phase(tier, seed, quick, nsim)
+        if cache:
+            pickle.dump(results, open(cache, "wb"))
     emitted, sims = [], []
     for kind, res in results:
         if kind == "emit":
@@ -263,6 +281,14 @@ def main(tier: str, seed: int) -> int:
     # invariant of every configuration).  TLC judges again: every trace of a replay that left the
     # model (drift; minimal ones, i.e. whose parent history still agreed), the traces on which the
     # model itself shows the known finding, and a sample of the agreeing ones as a cross-check.
+    from .replay import ensure_repo_on_path
+    ensure_repo_on_path()
+    import anyio  # noqa: F401 - imported before the worker processes are forked
+    import anyio._backends._asyncio  # noqa: F401
+    import uvloop  # noqa: F401
+    from . import c18_unit
+    for side in "AB":
+        c18_unit.pattern_fast(side, 0, 1 << 21)
     units = [1, 3] if quick else [1, 3, 1000]
     cap_drift, cap_ok, cap_known = (1200, 300, 60) if quick else (6000, 3000, 300)
     to_judge, src_judge = [], []
@@ -271,13 +297,9 @@ def main(tier: str, seed: int) -> int:
         pc = pycfg(c)
         keys = [json.dumps(it["h"]) for it in items]
         for U in units:
-            res = pmap("harness.c18_unit", "run_schedule", items, procs=12, chunk=2000, cfg=pc, unit=U)
-            drifted = set()
-            for it, k, r in zip(items, keys, res):
-                if "machinery_error" in r:
-                    raise tlc.TLCError("unit replay failed: " + r["machinery_error"])
-                if r["drift"]:
-                    drifted.add(k)
+            # in this process: a replay takes well under 0.1 ms, shipping it to a pool costs more
+            res = [c18_unit.run_schedule(it, cfg=pc, unit=U) for it in items]
+            drifted = {k for k, r in zip(keys, res) if r["drift"]}
             picks = {"drift": [], "ok": [], "known": []}
             for it, k, r in zip(items, keys, res):
                 rep.evaluations += 1
@@ -299,6 +321,8 @@ def main(tier: str, seed: int) -> int:
                 for it, r in picks[kind][: max(1, cap // n_cfg)]:
                     to_judge.append({"events": r["events"], "params": r["params"]})
                     src_judge.append({"mode": "unit", "config": name, "cfg": pc, "unit": U, "item": it, "pick": kind})
+    nmodel_known = sum(1 for _n, _c, items in emitted for it in items if KNOWN in it["x"]["bad"])
+    rep.extra["model_transitions_showing_F10"] = nmodel_known
     rep.drift = ndrift
     if drift_samples:
         rep.extra["drift_samples"] = drift_samples
@@ -321,6 +345,9 @@ def main(tier: str, seed: int) -> int:
                       f"of the trace recorded from StreamProtocol/SocketStream; schedule {json.dumps(src['item']['h'])}",
                       src, signature=sig)
     t_unit = time.time() - t0 - t_tlc
+    del emitted, verdicts
+    import gc
+    gc.collect()
 
     # ---- 3. real sockets
     from . import c18_real
